@@ -191,6 +191,72 @@ theorem timer_inv_run (ops : List Op) (s s' : State) (h : Inv s) (hr : run s ops
     · rename_i s1 h1; exact ih s1 (step_inv s s1 o h h1) hr
     · cases hr
 
+/-! ### consequences of the invariant for one state (used by the layers that own a timer manager) -/
+
+theorem wakes_of_inv (s : State) (h : Inv s) (t : Timer) (ht : t ∈ s.timers) (now : Nat)
+    (hexp : armValue t.expiry ≤ now) : readable s now = true := by
+  obtain ⟨⟨_, hne⟩, _, _⟩ := h
+  obtain ⟨a, ha, hle, _⟩ := hne (List.ne_nil_of_mem ht)
+  have := hle t ht
+  simp only [readable, ha, decide_eq_true_eq]; omega
+
+theorem quiet_of_inv (s : State) (h : Inv s) (now : Nat) (hrd : readable s now = true) :
+    ∃ t ∈ s.timers, t.expiry ≤ now := by
+  obtain ⟨⟨he, hne⟩, _, _⟩ := h
+  by_cases hem : s.timers = []
+  · simp [readable, he hem] at hrd
+  · obtain ⟨a, ha, _, t, ht, e⟩ := hne hem
+    refine ⟨t, ht, ?_⟩
+    simp only [readable, ha, decide_eq_true_eq] at hrd
+    subst e; unfold armValue at hrd; split at hrd <;> omega
+
+theorem cancel_inv (s : State) (id : Int) (h : Inv s) : Inv (cancel s id).1 := tryCancel_inv s id h
+
+theorem reschedule_inv (s : State) (now : Nat) (rel : Int) (id : Int) (h : Inv s) : Inv (reschedule s now rel id).1 := by
+  unfold reschedule
+  apply schedule_inv
+  split
+  · exact tryCancel_inv s id h
+  · exact h
+
+@[simp] theorem cancel_nextId (s : State) (id : Int) : (cancel s id).1.nextId = s.nextId := by
+  unfold cancel tryCancel; split <;> simp
+
+/-- cancelling one id leaves the lookup of every other id as it was -/
+theorem find_cancel_other (s : State) (id id' : Int) (hne : id' ≠ id) : find (cancel s id).1 id' = find s id' := by
+  unfold cancel tryCancel
+  split
+  · simp only [find, updateEpoll_timers]
+    induction s.timers with
+    | nil => simp [removeFirst]
+    | cons x r ih =>
+      simp only [removeFirst]
+      by_cases hx : ((x.id : Int) == id) = true
+      · have hxe : (x.id : Int) = id := by simpa using hx
+        have : ((x.id : Int) == id') = false := by simp [hxe]; exact fun e => hne e.symm
+        simp [hx, List.find?_cons, this]
+      · have hx' : ((x.id : Int) == id) = false := by simpa using hx
+        simp only [hx', Bool.false_eq_true, if_false, List.find?_cons]
+        split
+        · rfl
+        · exact ih
+  · rfl
+
+/-- scheduling leaves the lookup of every id already handed out as it was, and the new id denotes the new timer -/
+theorem find_schedule (s : State) (now : Nat) (rel : Int) (id' : Int) :
+    find (schedule s now rel).1 id' =
+      if (s.nextId : Int) = id' then some { id := s.nextId, expiry := now + rel.toNat } else find s id' := by
+  simp only [schedule, scheduleAbs, find, updateEpoll_timers, List.find?_cons]
+  by_cases h : (s.nextId : Int) = id'
+  · simp [h]
+  · have : ((s.nextId : Int) == id') = false := by simpa using h
+    simp [this, h]
+
+@[simp] theorem schedule_nextId (s : State) (now : Nat) (rel : Int) : (schedule s now rel).1.nextId = s.nextId + 1 := by
+  simp [schedule, scheduleAbs]
+
+@[simp] theorem schedule_id (s : State) (now : Nat) (rel : Int) : (schedule s now rel).2 = s.nextId := rfl
+
 /-! ### C04 / C13: no deadline is lost -/
 
 /-- a live timer whose deadline has been reached makes the timerfd (hence the socket's fd) readable, whatever
